@@ -117,6 +117,138 @@ struct TecmpHeaderObj : PodObj<TECMP::CmpHeader>
     }
 };
 
+// the public nested Header classes of the payloads (used directly by callers that lay out buffers themselves)
+struct CanHeaderObj : PodObj<CanPayloadBase::Header>
+{
+    using Fl = CanPayloadBase::Flags;
+    void flag(const char* n, Fl m)
+    {
+        acc.push_back({n, 1, [this, m]() -> uint64_t { return h.getFlag(m); }, [this, m](uint64_t v) { h.setFlag(m, v != 0); }});
+    }
+    explicit CanHeaderObj(bool fd)
+    {
+        RW("flags", 2, h.getFlags(), h.setFlags(static_cast<uint16_t>(v)));
+        RW("id", 4, h.getId(), h.setId(static_cast<uint32_t>(v)));
+        RW("rsvd", 1, h.getRsvd(), h.setRsvd(v != 0));
+        RW("ide", 1, h.getIde(), h.setIde(v != 0));
+        RW("crcSupport", 1, h.getCrcSupport(), h.setCrcSupport(v != 0));
+        RW("errorPosition", 2, h.getErrorPosition(), h.setErrorPosition(static_cast<uint16_t>(v)));
+        RW("dlc", 1, h.getDlc(), h.setDlc(static_cast<uint8_t>(v)));
+        RW("dataLength", 1, h.getDataLength(), h.setDataLength(static_cast<uint8_t>(v)));
+        if (fd)
+        {
+            RW("rrs", 1, h.getRtrRrs(), h.setRtrRrs(v != 0));
+            RW("crc", 3, h.getCrcSbc(), h.setCrcSbc(static_cast<uint32_t>(v)));
+            RW("sbc", 1, h.getSbc(), h.setSbc(static_cast<uint8_t>(v)));
+            RW("sbcParity", 1, h.getSbcParity(), h.setSbcParity(v != 0));
+            RW("sbcSupport", 1, h.getSbcSupport(), h.setSbcSupport(v != 0));
+        }
+        else
+        {
+            RW("rtr", 1, h.getRtrRrs(), h.setRtrRrs(v != 0));
+            RW("crc", 2, h.getCrc(), h.setCrc(static_cast<uint16_t>(v)));
+        }
+        flag("crcErr", Fl::crcErr);
+        flag("ackErr", Fl::ackErr);
+        flag("passiveAckErr", Fl::passiveAckErr);
+        flag("activeAckErr", Fl::activeAckErr);
+        flag("ackDelErr", Fl::ackDelErr);
+        flag("formErr", Fl::formErr);
+        flag("stuffErr", Fl::stuffErr);
+        flag("crcDelErr", Fl::crcDelErr);
+        flag("eofErr", Fl::eofErr);
+        flag("bitErr", Fl::bitErr);
+        flag("r0", Fl::r0);
+        flag("srrDom", Fl::srrDom);
+        flag("brs", Fl::brs);
+        flag("esi", Fl::esi);
+    }
+};
+
+struct LinHeaderObj : PodObj<LinPayload::Header>
+{
+    LinHeaderObj()
+    {
+        RW("flags", 2, h.getFlags(), h.setFlags(static_cast<uint16_t>(v)));
+        RW("linId", 1, h.getLinId(), h.setLinId(static_cast<uint8_t>(v)));
+        RW("parityBits", 1, h.getParityBits(), h.setParityBits(static_cast<uint8_t>(v)));
+        RW("checksum", 1, h.getChecksum(), h.setChecksum(static_cast<uint8_t>(v)));
+        RW("dataLength", 1, h.getDataLength(), h.setDataLength(static_cast<uint8_t>(v)));
+        using Fl = LinPayload::Flags;
+        const std::pair<const char*, Fl> fl[] = {{"checksumErr", Fl::checksumErr}, {"collisionErr", Fl::collisionErr}, {"parityErr", Fl::parityErr},
+                                                 {"noSlaveRespErr", Fl::noSlaveRespErr}, {"syncErr", Fl::syncErr}, {"framingErr", Fl::framingErr},
+                                                 {"shortDomErr", Fl::shortDomErr}, {"longDomErr", Fl::longDomErr}, {"wup", Fl::wup}};
+        for (const auto& x : fl)
+        {
+            const Fl m = x.second;
+            acc.push_back({x.first, 1, [this, m]() -> uint64_t { return h.getFlag(m); }, [this, m](uint64_t v) { h.setFlag(m, v != 0); }});
+        }
+    }
+};
+
+struct EthHeaderObj : PodObj<EthernetPayload::Header>
+{
+    EthHeaderObj()
+    {
+        RW("flags", 2, h.getFlags(), h.setFlags(static_cast<uint16_t>(v)));
+        RW("dataLength", 2, h.getDataLength(), h.setDataLength(static_cast<uint16_t>(v)));
+        using Fl = EthernetPayload::Flags;
+        const std::pair<const char*, Fl> fl[] = {{"fcsErr", Fl::fcsErr}, {"frameShorterThan64b", Fl::frameShorterThan64b}, {"txPortDown", Fl::txPortDown},
+                                                 {"collision", Fl::collision}, {"frameTooLongErr", Fl::frameTooLongErr}, {"phyErr", Fl::phyErr},
+                                                 {"frameTruncated", Fl::frameTruncated}, {"fcsSupport", Fl::fcsSupport}};
+        for (const auto& x : fl)
+        {
+            const Fl m = x.second;
+            acc.push_back({x.first, 1, [this, m]() -> uint64_t { return h.getFlag(m); }, [this, m](uint64_t v) { h.setFlag(m, v != 0); }});
+        }
+    }
+};
+
+struct AnalogHeaderObj : PodObj<AnalogPayload::Header>
+{
+    AnalogHeaderObj()
+    {
+        RW("flags", 2, h.getFlags(), h.setFlags(static_cast<uint16_t>(v)));
+        RW("sampleDt", 1, static_cast<uint16_t>(h.getSampleDt()) >> 8,
+           h.setSampleDt(v == 0 ? AnalogPayload::SampleDt::aInt16 : AnalogPayload::SampleDt::aInt32));
+        RW("unit", 1, h.getUnit(), h.setUnit(static_cast<AnalogPayload::Unit>(v)));
+        RW("sampleInterval", 4, f2u(h.getSampleInterval()), h.setSampleInterval(u2f(v)));
+        RW("sampleOffset", 4, f2u(h.getSampleOffset()), h.setSampleOffset(u2f(v)));
+        RW("sampleScalar", 4, f2u(h.getSampleScalar()), h.setSampleScalar(u2f(v)));
+    }
+};
+
+struct CmHeaderObj : PodObj<CaptureModulePayload::Header>
+{
+    CmHeaderObj()
+    {
+        RW("uptime", 8, h.getUptime(), h.setUptime(v));
+        RW("gmIdentity", 8, h.getGmIdentity(), h.setGmIdentity(v));
+        RW("gmClockQuality", 4, h.getGmClockQuality(), h.setGmClockQuality(static_cast<uint32_t>(v)));
+        RW("currentUtcOffset", 2, h.getCurrentUtcOffset(), h.setCurrentUtcOffset(static_cast<uint16_t>(v)));
+        RW("timeSource", 1, h.getTimeSource(), h.setTimeSource(static_cast<uint8_t>(v)));
+        RW("domainNumber", 1, h.getDomainNumber(), h.setDomainNumber(static_cast<uint8_t>(v)));
+        RW("gptpFlags", 1, h.getGptpFlags(), h.setGptpFlags(static_cast<uint8_t>(v)));
+    }
+};
+
+struct IfHeaderObj : PodObj<InterfacePayload::Header>
+{
+    IfHeaderObj()
+    {
+        RW("interfaceId", 4, h.getInterfaceId(), h.setInterfaceId(static_cast<uint32_t>(v)));
+        RW("msgTotalRx", 4, h.getMsgTotalRx(), h.setMsgTotalRx(static_cast<uint32_t>(v)));
+        RW("msgTotalTx", 4, h.getMsgTotalTx(), h.setMsgTotalTx(static_cast<uint32_t>(v)));
+        RW("msgDroppedRx", 4, h.getMsgDroppedRx(), h.setMsgDroppedRx(static_cast<uint32_t>(v)));
+        RW("msgDroppedTx", 4, h.getMsgDroppedTx(), h.setMsgDroppedTx(static_cast<uint32_t>(v)));
+        RW("errorsTotalRx", 4, h.getErrorsTotalRx(), h.setErrorsTotalRx(static_cast<uint32_t>(v)));
+        RW("errorsTotalTx", 4, h.getErrorsTotalTx(), h.setErrorsTotalTx(static_cast<uint32_t>(v)));
+        RW("interfaceType", 1, h.getInterfaceType(), h.setInterfaceType(static_cast<uint8_t>(v)));
+        RW("interfaceStatus", 1, h.getInterfaceStatus(), h.setInterfaceStatus(static_cast<InterfacePayload::InterfaceStatus>(v)));
+        RW("featureSupportBitmask", 4, h.getFeatureSupportBitmask(), h.setFeatureSupportBitmask(static_cast<uint32_t>(v)));
+    }
+};
+
 // payload classes: constructed from raw bytes through their public (data, size) constructor
 template <typename P>
 struct PayloadObj : Obj
@@ -476,6 +608,13 @@ std::unique_ptr<Obj> make(const std::string& cls)
     if (cls == "tecmpLin") return std::make_unique<TecmpLinObj>();
     if (cls == "tecmpIf") return std::make_unique<TecmpIfObj>();
     if (cls == "tecmpCm") return std::make_unique<TecmpCmObj>();
+    if (cls == "canHeader") return std::make_unique<CanHeaderObj>(false);
+    if (cls == "canfdHeader") return std::make_unique<CanHeaderObj>(true);
+    if (cls == "linHeader") return std::make_unique<LinHeaderObj>();
+    if (cls == "ethHeader") return std::make_unique<EthHeaderObj>();
+    if (cls == "analogHeader") return std::make_unique<AnalogHeaderObj>();
+    if (cls == "cmHeader") return std::make_unique<CmHeaderObj>();
+    if (cls == "ifHeader") return std::make_unique<IfHeaderObj>();
     if (cls == "payloadType") return std::make_unique<PayloadTypeObj>();
     if (cls == "payload") return std::make_unique<GenericPayloadObj>();
     if (cls == "packet") return std::make_unique<PacketObj>();
